@@ -3,6 +3,7 @@ package charset
 import (
 	"bytes"
 	"encoding/xml"
+	"io"
 	"strings"
 	"unicode/utf8"
 
@@ -147,6 +148,10 @@ func FromXML(content []byte) string {
 func fromXML(content []byte) string {
 	content = trimLWS(content)
 	dec := xml.NewDecoder(bytes.NewReader(content))
+	// Without a CharsetReader the decoder refuses any non UTF-8 encoding label.
+	dec.CharsetReader = func(label string, input io.Reader) (io.Reader, error) {
+		return input, nil
+	}
 	rawT, err := dec.RawToken()
 	if err != nil {
 		return ""
